@@ -514,3 +514,39 @@ Definition x_value_ok (plain stripped : sval xq xq) : bool :=
   | Plain (MArr r), Strip (MArr m) e => eqb (map (fun v => xmul v e) m) r
   | _, _ => false
   end.
+
+(* ================================================================================ *)
+(* Instance 3: reals with an exponent that may be -inf -- the semantics of the code after
+   the fix commits 150ba09 / e2d82e1 (divisor factor + (factor == 0); `== -inf` guards).
+   log10 0 = -inf, -inf + x = -inf, max as Python's, 10 ** (-inf - finite) = 0.
+   `er_pow x ENInf` (10 ** (x - -inf)) is never evaluated by the code: in
+   add_maybe_exponent_stripped and gather_slices the subtrahend is a maximum and the
+   `== -inf` guard handles the case where that maximum is -inf; it is given the value 0. *)
+Inductive er := EFin (r : R) | ENInf.
+Definition er_add (a b : er) : er :=
+  match a, b with EFin x, EFin y => EFin (x + y) | _, _ => ENInf end.
+Definition er_log (f : R) : er := if ris0 f then ENInf else EFin (log10 f).
+Definition er_max (a b : er) : er :=
+  match a, b with
+  | ENInf, _ => b
+  | _, ENInf => a
+  | EFin x, EFin y => EFin (Rmax x y)
+  end.
+Definition er_pow (a b : er) : R :=
+  match a, b with
+  | EFin x, EFin y => pow10 (x - y)
+  | ENInf, EFin _ => 0
+  | _, ENInf => 0
+  end.
+Definition er_isninf (e : er) : bool := match e with ENInf => true | EFin _ => false end.
+(* 10^e with the convention 10^(-inf) = 0 *)
+Definition p10 (e : er) : R := match e with EFin r => pow10 r | ENInf => 0 end.
+
+Definition T_run := run R er 0 Rdiv Rabs Rmax ris0 rguard_fix er_log er_add.
+Definition T_core := contract_core R er 0 Rdiv Rabs Rmax ris0 rguard_fix (EFin 0) er_log er_add.
+Definition T_add := add_maybe R er Rplus Rmult er_isninf (EFin 0) er_max er_pow.
+Definition T_gather_sum := gather_sum R er Rplus Rmult er_isninf (EFin 0) er_max er_pow.
+Definition T_gather_stack := gather_stack R er Rmult er_isninf er_max er_pow.
+Definition T_group := group_chunks R er Rplus Rmult er_isninf (EFin 0) er_max er_pow.
+Definition T_value (s : sval R er) : mant R :=
+  match s with Plain m => m | Strip m e => R_mscale_r m (p10 e) end.
